@@ -62,6 +62,31 @@ pub fn check(ctx: &mut Ctx, doc: &Tree, path: &JPath, text: &str) {
             }
         },
     }
+    // the same selection appended to a data buffer that already holds bytes (with no offsets
+    // reported for them): the offsets are positions in that buffer
+    if ctx.case_no % 3 == 0 {
+        if let Outcome::Items(exp) = &expected {
+            let (mut data, mut offs): (Vec<u8>, Vec<u64>) = (vec![0x5A, 0x80, 0, 0, 1], Vec::new());
+            if let Sel::Ok(_) = select_into(text.as_bytes(), &enc, 0, &mut data, &mut offs) {
+                let mut prev = 5usize;
+                let mut items: Vec<Vec<u8>> = Vec::new();
+                let mut ok = data.len() >= 5 && data[..5] == [0x5A, 0x80, 0, 0, 1];
+                for &o in &offs {
+                    let o = o as usize;
+                    if o < prev || o > data.len() {
+                        ok = false;
+                        break;
+                    }
+                    items.push(data[prev..o].to_vec());
+                    prev = o;
+                }
+                let exp_bytes: Vec<Vec<u8>> = exp.iter().map(refcodec::encode).collect();
+                if !ok || prev != data.len() || items != exp_bytes {
+                    ctx.violation("select/offsets-not-positions-in-prefilled-buffer", || format!("data={} offsets={:?} (5 bytes were in the buffer, no offsets) expected {} item(s) ; {}", hex(&data), offs, exp.len(), info()));
+                }
+            }
+        }
+    }
     // exists / predicate_match
     match (exists(text.as_bytes(), &enc), &expected) {
         (Err(p), _) => ctx.panic_violation("exists", &p, &info),
@@ -235,7 +260,7 @@ pub fn run(ctx: &mut Ctx) {
             if round == 0 && !ctx.miri {
                 arith_is_reported(ctx, &doc, &path, &mut rng);
             }
-            if round == 0 && matches!(path, JPath::Steps(_)) {
+            if round == 0 && matches!(path, JPath::Steps(_)) && (!ctx.miri || i % 4 == 0) {
                 // the same steps written without the leading `$` select the same items
                 let plain = refpath::render(&path, &refpath::PLAIN, &mut rng);
                 let rootless = plain.strip_prefix("$.").filter(|r| r.starts_with(|c: char| c.is_ascii_alphabetic())).or_else(|| plain.strip_prefix('$').filter(|r| r.starts_with('[') || r.starts_with(':')));
@@ -256,7 +281,7 @@ pub fn run(ctx: &mut Ctx) {
                     selector_reuse(ctx, &enc, &o2, &text, &|| format!("path={:?} doc={}", text, doc.show()));
                 }
             }
-            if round == 1 && i % 2 == 0 && doc.nodes() < 300 && !matches!(refpath::eval(&path, &doc), Outcome::Unspecified) {
+            if round == 1 && i % (if ctx.miri { 8 } else { 2 }) == 0 && doc.nodes() < 300 && !matches!(refpath::eval(&path, &doc), Outcome::Unspecified) {
                 // the same selection on the text of the document and on reused buffers
                 let plain = refpath::render(&path, &refpath::PLAIN, &mut rng);
                 let args = super::routes::path_args(&doc, plain.clone(), plain, &mut rng);
